@@ -1,7 +1,7 @@
 (** C16 — Signals equal their definitions over the trailing window of supplied closes. *)
 From Coq Require Import ZArith QArith String List.
 From QS Require Import theories.Num theories.Position theories.Portfolio theories.Clock theories.PCM theories.Signals theories.Backtest
-  proofs.SignalProofs proofs.SessionSignals.
+  proofs.SignalProofs proofs.SessionSignals proofs.BacktestProofs proofs.SpecRun proofs.SessionSignalsRun.
 Import ListNotations.
 Open Scope Q_scope.
 
@@ -79,6 +79,54 @@ Theorem tracked_iff_member_now_or_before :
   forall assets univ a, In a (update_assets assets univ) <-> In a assets \/ In a univ.
 Proof. exact update_assets_in. Qed.
 Print Assumptions tracked_iff_member_now_or_before.
+
+(** * Whole sessions.  In every run that has not raised after its first n clock events - any configuration,
+      schedule, alpha model, sizing mode, market - every momentum window (N+1 prices) and every moving-average
+      window (N prices) is the most recent part of ITS OWN asset's stream in [spec_obs]: the history built from
+      the universe and the market alone (at each business-day close the new universe members join the tracked
+      list in universe order, then each tracked asset receives that close's price); the tracked list and the
+      warm-up counter are the inputs' too.  Fills, cash, the schedule and the alpha model cannot influence them. *)
+Theorem session_windows_are_the_assets_own_closes :
+  forall cfg market st evs sched lbs,
+    c_lookbacks cfg = Some lbs -> session_init cfg = Ok (st, evs, sched) ->
+    forall n, tr_noerr (run_from cfg sched market st (firstn n evs)) ->
+    let g' := ss_sig (end_from cfg sched market st (firstn n evs)) in
+    let closes := closes_of (firstn n evs) in
+    let hist := spec_obs cfg market (universe_assets (c_univ cfg) (c_start cfg)) closes in
+    (forall a m w, buf_find a (S m) (g_mom g') = Some w -> w = lastn (S m) (stream_of a hist)) /\
+    (forall a m w, buf_find a m (g_sma g') = Some w -> w = lastn m (stream_of a hist)) /\
+    g_assets g' = spec_tracked cfg (universe_assets (c_univ cfg) (c_start cfg)) closes /\
+    g_warm g' = length closes.
+Proof. exact session_signals. Qed.
+Print Assumptions session_windows_are_the_assets_own_closes.
+
+(** one close contributes to an asset's stream exactly its own price, once, if the asset is tracked
+    (and quoted) - and nothing otherwise: no other asset's price, nothing twice *)
+Theorem one_close_one_own_price :
+  forall a snap l,
+    (~ In a l -> stream_of a (obs_of snap l) = []) /\
+    (NoDup l -> In a l -> stream_of a (obs_of snap l) = match snap_find a snap with Some p => [p] | None => [] end).
+Proof. intros a snap l. split; [apply stream_of_obs_notin|apply stream_of_obs_in]. Qed.
+Print Assumptions one_close_one_own_price.
+
+(** Non-vacuity: a one-week daily top-1 momentum session (lookback 2) over two assets whose prices depend on the
+    day; after the whole run the momentum window of B holds its last three closes and the counter is 5. *)
+Definition cfg16 : config :=
+  mkCfg (18267 * 86400) (18271 * 86400 + 86340) (PCM.StaticU ["A"%string; "B"%string]) (ATopN 2 1)
+        (100000 # 1)%Q RDaily true 0%Q Fees.ZeroFee None (Some [2%nat]).
+Definition mk16 (t : Z) : snapshot :=
+  [("A"%string, inject_Z (100 + (t / 86400 - 18267))); ("B"%string, inject_Z (50 + 2 * (t / 86400 - 18267)))].
+Example session_signals_nonvacuous :
+  exists st evs sched, session_init cfg16 = Ok (st, evs, sched) /\
+    tr_noerr (run_from cfg16 sched mk16 st evs) /\
+    buf_find "B" 3 (g_mom (ss_sig (end_from cfg16 sched mk16 st evs))) = Some [inject_Z 54; inject_Z 56; inject_Z 58] /\
+    g_warm (ss_sig (end_from cfg16 sched mk16 st evs)) = 5%nat /\
+    length (filter (fun o => o_fill (snd o)) (run_from cfg16 sched mk16 st evs)) = 3%nat.
+Proof.
+  eexists. eexists. eexists. split; [vm_compute; reflexivity|]. split; [vm_compute; repeat constructor|].
+  split; [vm_compute; reflexivity|]. split; vm_compute; reflexivity.
+Qed.
+Print Assumptions session_signals_nonvacuous.
 
 (** Non-vacuity *)
 Example signals_nonvacuous :
